@@ -20,6 +20,7 @@ type nodeExtra struct {
 	psStore *peersync.Store
 	psCh    chan peersync.CustomMessage
 	psInc   int
+	psReal  bool // peer-sync runs over its own real Lightning adapter (tiers 2 and 3), not the stub
 	// connectivity as the node's lightning daemon reports it (ListPeers)
 	disconnected map[int]bool
 	servedAt     map[string]time.Duration // task/chain -> when it was last told the height
@@ -105,7 +106,21 @@ func (n *Node) startPeersync(ctx context.Context, pol *policy.Policy, ps *premiu
 	if w.Plan.Scn.LiquidOn[n.ID] {
 		assets = append(assets, "lbtc")
 	}
-	n.ext.PSync = peersync.NewPeerSync(id, store, &peersyncStub{n}, pol, assets, ps)
+	var ln peersync.Lightning = &peersyncStub{n}
+	n.ext.psReal = false
+	switch {
+	case n.clnClient != nil:
+		// tier 3: peer-sync's own CLN adapter over the real clightning client (cmd/peerswap-plugin/main.go)
+		ln = peersync.NewClnLightningAdapter(n.clnClient)
+		n.ext.psReal = true
+		w.Probe("peersync:real-cln-adapter")
+	case n.lnd != nil:
+		// tier 2: peer-sync's own lnd adapter over the (simulated) lnd RPC client (cmd/peerswaplnd/peerswapd/main.go)
+		n.ext.psReal = true
+		ln = peersync.NewLightningAdapter(n.lnd.Lightning())
+		w.Probe("peersync:real-lnd-adapter")
+	}
+	n.ext.PSync = peersync.NewPeerSync(id, store, ln, pol, assets, ps)
 	if err := n.ext.PSync.Start(ctx); err != nil {
 		w.Observe(&Obs{Node: n.ID, Kind: "boot.fail", Str: "peersync start: " + err.Error()})
 		return
@@ -134,6 +149,7 @@ func (n *Node) closePeersync() {
 	}
 	n.ext.psCh = nil
 	n.ext.PSync = nil
+	n.ext.psReal = false
 }
 
 // PeerView returns what the node's peersync store holds for peer (nil if none).
